@@ -1,4 +1,5 @@
 import PlzVerif.Lemmas.FmtSimplify
+import PlzVerif.Model.AspLex
 import PlzVerif.Generated.C38
 /-!
 C38  `plz fmt` never changes what a BUILD file means.
@@ -57,5 +58,22 @@ theorem C38_simplify_fixpoint (s : List Stmt) (h : NoAdjacent s) : simplifyLoop 
 example : simplifyLoop [.sub ["//a:b"], .sub ["//c:d", "//e:f"], .other 0, .sub [], .sub ["//g:h"]] =
     [.sub ["//a:b", "//c:d", "//e:f"], .other 0, .sub ["//g:h"]] := by decide
 example : NoAdjacent [.sub ["//a:b"], .other 0, .sub ["//c:d"]] := by simp [NoAdjacent]
+
+/-! ### Witnesses on the lexer model for two of the known findings of the translation validation
+
+The formatter itself is not modelled, but what makes its output unacceptable to Please is a property of the
+asp lexer, and that is: -/
+open PlzVerif.AspLex
+
+/-- fmt-backslash-continuation: buildtools prints adjacent string literals as `"a" \` + newline + `"b"`; asp has
+    no backslash continuation — the lexer fails with "Unknown symbol \" at the backslash. -/
+theorem C38_witness_backslash_not_lexed :
+    (lexAll "x = \"a\" \\\n\"b\"\n".toUTF8.data).2 = some (.fail 8 (.unknownSymbol 92)) := by decide +kernel
+
+/-- fmt-negative-octal: `-(0o17)` is printed as `-0o17`; the lexer glues `-` to the digits without the `0o`
+    case, so the text lexes as the integer `-0` followed by the identifier `o17`. -/
+theorem C38_witness_negative_octal :
+    ((lexAll "-0o17\n".toUTF8.data).1.toList.map (fun t => (t.ty, t.val))).take 2 =
+      [(.int, "-0".toUTF8.data), (.ident, "o17".toUTF8.data)] := by decide +kernel
 
 end PlzVerif.Props.C38
